@@ -84,6 +84,10 @@ type World struct {
 	digests  [][]byte
 	schs     []*schEvent
 	held     []heldSig
+	// caller-owned options objects that are reused, with rewritten fields,
+	// across the calls of a history
+	optsPool   []*secec.ECDSAOptions
+	verifyOpts secec.ECDSAOptions
 }
 
 func hx(b []byte) string { return kernel.Hex(b) }
